@@ -253,7 +253,9 @@ impl Report {
                 self.samples.push(s.clone());
             }
         }
+        if std::env::var("CKC_MC_QUIET").is_err() {
         eprintln!("[{} {}] space {:<44} cases {:>14} calls {:>15} viol {:>6} {:.1}s", self.id, profile_name(), name, acc.cases, acc.calls, acc.viol_count, t0.elapsed().as_secs_f64());
+        }
     }
     pub fn push_violation(&mut self, v: Violation) {
         if self.viols.len() < 24 || (self.viols.len() < 96 && !self.viols.iter().any(|x| x.class == v.class)) {
@@ -300,6 +302,43 @@ impl Report {
             .with("guards", Json::A(self.guards.iter().map(|g| Json::A(vec![Json::s(g.0.clone()), Json::Bool(g.1), Json::s(g.2.clone())])).collect()))
             .with("spaces", Json::A(self.spaces.iter().map(space_json).collect()))
             .with("panics_observed", Json::U(monitor::panics_observed()))
+    }
+
+    /// Merges the report of one shard process (same profile, disjoint part of a space): everything adds up.
+    pub fn merge_shard(&mut self, j: &Json) {
+        let g = |k: &str| j.get(k).and_then(|x| x.as_u64()).unwrap_or(0);
+        self.states += g("states");
+        self.transitions += g("transitions");
+        self.compared += g("compared");
+        self.evaluations += g("evaluations");
+        self.distinct_nontrivial += g("distinct_nontrivial");
+        self.viol_count += g("viol_count");
+        if let Some(vs) = j.get("viols").and_then(|v| v.as_arr()) {
+            for v in vs {
+                if let Ok(v) = Violation::from_json(v) {
+                    self.push_violation(v);
+                }
+            }
+        }
+        if let Some(sp) = j.get("spaces").and_then(|s| s.as_arr()) {
+            for s in sp {
+                let name = s.get("name").and_then(|x| x.as_str()).unwrap_or("").to_string();
+                let cases = s.get("cases").and_then(|x| x.as_u64()).unwrap_or(0);
+                let calls = s.get("calls").and_then(|x| x.as_u64()).unwrap_or(0);
+                let wall = match s.get("wall_s") {
+                    Some(Json::F(f)) => *f,
+                    Some(Json::U(u)) => *u as f64,
+                    _ => 0.0,
+                };
+                if let Some(e) = self.spaces.iter_mut().find(|e| e.name == name) {
+                    e.cases += cases;
+                    e.calls += calls;
+                    e.wall_s = e.wall_s.max(wall);
+                } else {
+                    self.spaces.push(Space { name, cases, calls, wall_s: wall, exhaustive: true, note: s.get("note").and_then(|x| x.as_str()).unwrap_or("").to_string() });
+                }
+            }
+        }
     }
 
     /// Merges the report of the same property run in the other build profile (a child process).
